@@ -148,7 +148,7 @@ func cmdFn(args []string) int {
 	return 0
 }
 
-func cmdCheck(args []string) int { return 0 }
+
 
 // vcGood: a proof VC must be unsat; a vacuity VC (ExpectSat) fails only when
 // the solver proves the assumptions contradictory.
